@@ -473,13 +473,35 @@ def run(ctx):
                     enc(("veto", "composite", (1.0, 2.0), (5, 4), 1))],
         "exhaustive": True,
     }
+    # (c) the proposals inside explored runs of every configuration that wires a cell-veto handler
+    from . import _enva
+    st = _enva.run_monitors(ctx, res, ("C18",), spec_filter=_has_cell_veto, prefixes=("C18:",), resume_legs=(),
+                            quick_baselines=[ctx.seed % 4])
+    res.coverage["evaluations"] += st["executions"]
+    res.coverage["run_level"] = {"executions": st["executions"], "configurations": len(st["per_spec"]),
+                                 "cell_veto_proposals": st.get("c18_proposals", 0),
+                                 "cell_veto_commits": st.get("c18_commits", 0),
+                                 "distinct_outcomes": len(st["outcomes"])}
+    res.coverage["rule"] += (" (c) engine A on the %d configurations with a cell-veto handler: at every proposal the "
+                             "offset target - active cell has a stored bound; at every committed proposal the active "
+                             "unit is still in the cell the offset was applied to." % len(st["per_spec"]))
     res.assumptions = ["random.choice / random.uniform / random.expovariate are the only draws (proved by the seam)",
                        "the estimator is replaced by a stub with a distinct bound per (offset, direction, sign); real "
                        "estimators only provide numbers"]
     return res
 
 
+def _has_cell_veto(spec):
+    from .. import cfg
+    c = cfg.load(spec.ini)
+    return any(c.has_option(sec, "event_handler") and "cell_veto" in c.get(sec, "event_handler")
+               for sec in c.sections())
+
+
 def replay(ctx, case):
+    if "spec" in case:
+        from . import _enva
+        return _enva.replay(ctx, case, ("C18",))
     c = dec(case["case"])
     _, fails = par.guarded(check_case)(c)
     return sorted(set(k for k, _ in fails)) or None
